@@ -463,5 +463,21 @@ def module_function_lookup(ctx, mod, extra, skip=()):
         v = ctx.try_fold(ast.Name(id=name, ctx=ast.Load()), mod)
         if v is not None:
             return True, v
+        # a module-level value that is not a foldable constant (`_BY_TIMESTAMP = itemgetter(1)`, a sentinel `object()`):
+        # evaluated once by the interpreter itself
+        if name in memo:
+            return True, memo[name]
+        exprs = mod.toplevel.get(name) if hasattr(mod.toplevel, "get") else None
+        if exprs:
+            try:
+                e_ = exprs[-1] if isinstance(exprs, (list, tuple)) else exprs
+                if isinstance(e_, ast.Call) and A.call_name(e_) == "object" and not e_.args:
+                    memo[name] = MI.ModelObj("sentinel " + name)
+                else:
+                    memo[name] = MI.eval_expr(e_, extra)
+                return True, memo[name]
+            except (AnalysisError, MI.Raised, TypeError, AttributeError):
+                return False, None
         return False, None
+    memo = {}
     return look
